@@ -123,6 +123,9 @@ type Run struct {
 	stubState map[string]interface{}
 
 	killed      bool
+	decReg      map[*smt.Term]decEntry
+	hornerReg   map[*smt.Term]hornerEntry
+	decCache    map[*smt.Term][]*smt.Term
 	noFork      int
 	noIntrinsic *ssa.Function
 	schedN      int
